@@ -6,6 +6,8 @@
   /venv/bin/python -m vf.seeded_tool detect seeded/<id> [--tier quick] [C01 C05 ...]
       applies the patch to /repo, runs the named checks (default: meta.json's property),
       reverts (/repo is restored in any case).  Writes detect.json.
+      With --worktree the patch goes into a scratch worktree (/tmp/det_<id>) that the checks are
+      pointed at through VF_REPO, /repo is not touched; writes detect_wt.json.
 """
 import json
 import os
@@ -72,23 +74,41 @@ def confirm(d, run_tests=True):
     return 0 if out.get("ok") else 1
 
 
-def detect(d, props, tier):
+def detect(d, props, tier, worktree=False):
     d = os.path.abspath(d)
-    meta = json.load(open(os.path.join(d, "meta.json")))
+    name = os.path.basename(d)
+    mp = os.path.join(d, "meta.json")
+    meta = json.load(open(mp)) if os.path.exists(mp) else {"property": name.split("-")[0]}
     props = props or [meta["property"]]
-    st = sh("git -C /repo status --porcelain --untracked-files=no")
-    if st.stdout.strip():
-        print("refusing: /repo has uncommitted changes")
-        return 2
-    r = sh(f"git -C /repo apply {os.path.join(d, 'patch.diff')}")
+    target = "/repo"
+    if worktree:
+        # scratch worktree instead of /repo itself (used while a long run is reading /repo)
+        target = f"/tmp/det_{name}"
+        sh(f"git -C /repo worktree remove --force {target}")
+        r = sh(f"git -C /repo worktree add -q {target} HEAD")
+        if r.returncode:
+            print(r.stderr)
+            return 2
+    else:
+        st = sh("git -C /repo status --porcelain --untracked-files=no")
+        if st.stdout.strip():
+            print("refusing: /repo has uncommitted changes")
+            return 2
+    r = sh(f"git -C {target} apply {os.path.join(d, 'patch.diff')}")
     if r.returncode:
         print("patch does not apply:", r.stderr)
+        if worktree:
+            sh(f"git -C /repo worktree remove --force {target}")
         return 2
     res = {}
     try:
         procs = []
-        env = dict(os.environ, VF_EVIDENCE_DIR="/root/scratch/mut_evidence",
-                   VF_REPLAY_DIR="/root/scratch/mut_replays")
+        env = dict(os.environ, VF_EVIDENCE_DIR=f"/root/scratch/mut_evidence/{name}",
+                   VF_REPLAY_DIR=f"/root/scratch/mut_replays/{name}")
+        os.makedirs(env["VF_EVIDENCE_DIR"], exist_ok=True)
+        os.makedirs(env["VF_REPLAY_DIR"], exist_ok=True)
+        if worktree:
+            env["VF_REPO"] = target
         for p in props:
             procs.append((p, time.time(), subprocess.Popen(
                 f"{PYT} -m vf.run {p} --tier {tier}", shell=True, cwd="/verif", env=env,
@@ -103,8 +123,12 @@ def detect(d, props, tier):
             for l in res[p]["lines"][:4]:
                 print("    ", l[:200])
     finally:
-        sh("git -C /repo checkout -- .")
-    path = os.path.join(d, "detect.json")
+        if worktree:
+            sh(f"git -C /repo worktree remove --force {target}")
+            shutil.rmtree(target, ignore_errors=True)
+        else:
+            sh("git -C /repo checkout -- .")
+    path = os.path.join(d, "detect_wt.json" if worktree else "detect.json")
     old = json.load(open(path)) if os.path.exists(path) else {}
     old.setdefault(tier, {}).update(res)
     json.dump(old, open(path, "w"), indent=1)
@@ -125,7 +149,10 @@ def main():
             i = rest.index("--tier")
             tier = rest[i + 1]
             del rest[i : i + 2]
-        return detect(a[1], rest, tier)
+        wt = "--worktree" in rest
+        if wt:
+            rest.remove("--worktree")
+        return detect(a[1], rest, tier, wt)
     print(__doc__)
     return 2
 
